@@ -18,7 +18,8 @@ _AnyNumber = Union[int, decimal.Decimal, 'NumberExpr']
 
 
 def _add_expr_from_value(value: decimal.Decimal) -> NumberAddExpr:
-    number_token = number.Number.from_value(abs(value))
+    # copy_abs() is exact; abs() rounds to the precision of the decimal context.
+    number_token = number.Number.from_value(value.copy_abs())
     token_store = base.TokenStore.from_tokens([number_token])
     atom_expr: NumberAtomExpr
     if value < 0:
